@@ -5,9 +5,54 @@ package main
 import (
 	"go/ast"
 	"go/token"
+	"strings"
 )
 
 func init() { jobs = append(jobs, job{props: []string{"C09"}, fn: genC09}) }
+
+// c09Negate returns the canonical negation of a canonicalised comparison
+// ("a <= b" -> "b < a", "a < b" -> "b <= a"); other conditions are wrapped.
+func c09Negate(c string) string {
+	if i := strings.Index(c, " <= "); i > 0 && !strings.ContainsAny(c, "&|") {
+		return c[i+4:] + " < " + c[:i]
+	}
+	if i := strings.Index(c, " < "); i > 0 && !strings.ContainsAny(c, "&|") {
+		return c[i+3:] + " <= " + c[:i]
+	}
+	return "!(" + c + ")"
+}
+
+// c09ResolveLocal replaces an identifier that is defined exactly once in the
+// function by `x := expr` with that expression, so that naming a condition
+// (`expired := a <= b; if expired {…}`) yields the same fact.
+func c09ResolveLocal(fd *ast.FuncDecl, e ast.Expr) ast.Expr {
+	id, ok := e.(*ast.Ident)
+	if !ok {
+		return e
+	}
+	var def ast.Expr
+	n := 0
+	ast.Inspect(fd.Body, func(nd ast.Node) bool {
+		if as, ok := nd.(*ast.AssignStmt); ok {
+			for i, lhs := range as.Lhs {
+				if l, ok := lhs.(*ast.Ident); ok && l.Name == id.Name && i < len(as.Rhs) {
+					n++
+					def = as.Rhs[i]
+				}
+			}
+		}
+		return true
+	})
+	if n == 1 && def != nil {
+		return def
+	}
+	return e
+}
+
+// c09StripRecv drops a leading "w." so that `w.bestHeight` (field) and the
+// `bestHeight` parameter it was just assigned from read the same.
+func c09StripRecv(c string) string { return strings.ReplaceAll(c, "w.", "") }
+
 
 // canonCmp prints a comparison with >=/> flipped to <=/<, so that harmless
 // re-spellings of the same condition yield the same fact.
@@ -69,10 +114,23 @@ func genC09() {
 		if rs, ok := n.(*ast.RangeStmt); ok &&
 			exprString(rs.X) == "w.expirationsPerHeight" {
 
+			// the rule under which a bucket is visited: either
+			// `if C { overdueExpirations(h) }` or the guard form
+			// `if D { continue }; overdueExpirations(h)` (rule = not D)
 			for _, st := range rs.Body.List {
-				if is, ok := st.(*ast.IfStmt); ok {
-					bucketCond = canonCmp(is.Cond)
+				is, ok := st.(*ast.IfStmt)
+				if !ok {
+					continue
 				}
+				cond := canonCmp(c09ResolveLocal(nb, is.Cond))
+				if len(is.Body.List) == 1 {
+					if br, ok := is.Body.List[0].(*ast.BranchStmt); ok &&
+						br.Tok == token.CONTINUE {
+
+						cond = c09Negate(cond)
+					}
+				}
+				bucketCond = cond
 			}
 		}
 		return true
@@ -83,7 +141,7 @@ func genC09() {
 	}
 	for _, st := range add.Body.List {
 		if is, ok := st.(*ast.IfStmt); ok && addCond == "" {
-			addCond = canonCmp(is.Cond)
+			addCond = c09StripRecv(canonCmp(c09ResolveLocal(add, is.Cond)))
 		}
 	}
 	ast.Inspect(od.Body, func(n ast.Node) bool {
